@@ -185,6 +185,9 @@ func (fr *Frame) doCallInner(st *State, instr ssa.Value, c *ssa.CallCommon, pos 
 // contract of the function under verification attaches to its n-th call of callee.
 func (fr *Frame) atCall(st *State, key string, c *ssa.CallCommon, pos token.Pos) {
 	fc := fr.fc
+	if fr.spec != nil && len(fr.spec.MustCalls) > 0 {
+		fr.markMustCall(st, key, c)
+	}
 	if fr.spec == nil || len(fr.spec.AtCalls) == 0 {
 		return
 	}
@@ -1176,4 +1179,39 @@ func (fc *FnCtx) genericSortMismatch(fn *ssa.Function, inst *types.Signature) bo
 		}
 	}
 	return false
+}
+
+// compMustCall records which of the call sites named by mustcall clauses have been executed.
+const compMustCall = "MC_called"
+
+func mustCallKey(site string) Term {
+	return mk(fmt.Sprintf("(PObj (- %d))", 100000+int(hashString(site)%800000)), SPtr, nil)
+}
+
+// mustCallSites returns the mustcall site names ("callee@n") matching this call.
+func (fr *Frame) mustCallSites(key string, c *ssa.CallCommon) []string {
+	if fr.spec == nil {
+		return nil
+	}
+	ord := fr.siteOrd[c]
+	sk := shortKey(key)
+	cands := []string{fmt.Sprintf("%s@%d", sk, ord)}
+	if i := strings.LastIndex(sk, "."); i >= 0 {
+		cands = append(cands, fmt.Sprintf("%s@%d", sk[i+1:], ord))
+	}
+	var out []string
+	for _, n := range cands {
+		if len(fr.spec.MustCalls[n]) > 0 {
+			out = append(out, n)
+		}
+	}
+	return out
+}
+
+func (fr *Frame) markMustCall(st *State, key string, c *ssa.CallCommon) {
+	fc := fr.fc
+	for _, site := range fr.mustCallSites(key, c) {
+		fc.registerComp(compMustCall, arraySort(SPtr, SBool))
+		fc.setComp(st, compMustCall, tStore(fc.comp(st, compMustCall), mustCallKey(site), tBool(true)))
+	}
 }
